@@ -173,8 +173,17 @@ SimMisfit ==
   /\ last' = [op |-> "sim_misfit", a |-> <<>>, ok |-> TRUE]
   /\ UNCHANGED <<keys, nan, noisy, extra, nf, re, stdx>>
 
+(* a NEW Simulation created on THIS survey object (which may carry the      *)
+(* weights an earlier Simulation cached in it), no clean: its misfit.  Named *)
+(* deviation NewSimReusesWeights: misfit took data['weights'] as found.     *)
+NewSimMisfit ==
+  /\ Step /\ StdDefined
+  /\ wc' = IF "NewSimReusesWeights" \in Deviations /\ wc # "none" THEN wc ELSE "cur"
+  /\ last' = [op |-> "newsim_misfit", a |-> <<>>, ok |-> TRUE]
+  /\ UNCHANGED <<keys, nan, noisy, extra, nf, re, stdx>>
+
 Next ==
-  \/ Misfit \/ SimMisfit
+  \/ Misfit \/ SimMisfit \/ NewSimMisfit
   \/ \E x \in Settings : SetNF(x) \/ SetRE(x)
   \/ \E w \in {"set_nf", "set_re", "set_std"} : SetBad(w)
   \/ \E x \in {0, 1} : SetStd(x)
@@ -190,11 +199,12 @@ Spec == Init /\ [][Next]_vars
 SetsW == {NoSet, [k |-> "scalar", v |-> 1, h |-> 0], [k |-> "array", v |-> 4, h |-> 0],
           [k |-> "array", v |-> 2, h |-> 0]}
 NextW ==
-  \/ SimMisfit \/ Misfit
+  \/ SimMisfit \/ Misfit \/ NewSimMisfit
   \/ \E x \in SetsW : SetNF(x) \/ SetRE(x)
   \/ \E x \in {0, 1} : SetStd(x)
   \/ RoundTrip("copy") \/ RoundTrip("json")
-  \/ \E a \in {"observed", "noise"} : AddNoise("none", a, <<0, Inf>>)
+  \/ \E a \in {"observed", "noise"}, o \in {<<0, Inf>>, <<150, Inf>>, <<250, 350>>} :
+        AddNoise("none", a, o)     \* with cuts: the finiteness pattern changes
 SpecW == Init /\ [][NextW]_vars
 
 (* ============================ properties (C13) =========================== *)
@@ -209,6 +219,9 @@ NeverHalved == nf.h = 0 /\ re.h = 0
 (* after the documented refresh (clean) the misfit of a long-lived          *)
 (* simulation is computed from the current noise settings                   *)
 SimMisfitFollowsNoise == last.op = "sim_misfit" => wc = "cur"
+(* so is the misfit of a newly created simulation, whatever the survey      *)
+(* object was used for before                                               *)
+NewSimFollowsNoise == last.op = "newsim_misfit" => wc = "cur"
 
 (* a selection contains exactly the chosen sub-cube (reference definition,  *)
 (* independent of the transcription above): chosen keys in the chosen       *)
